@@ -58,12 +58,16 @@ def register(claim, not_yet):
           'outputs and repeated pull-backs through one retained graph.' + TIE + BRK,
           'Lean 4 adjointness theorems (q2c/c2q, symmetric colfilter, level-1 backward pass) + exact autograd correspondence + Jacobian oracle', 'DESIGN.md §4 C06', 'level >= 2 adjointness is oracle-decided: partial.')
     claim('C07',
-          'Proved for all sizes: correlation (any stride/dilation), index-vector padding, zero padding, take/drop, concatenation, roll and the wrap-around fold are linear list operators and '
-          'linearity is closed under composition and under choices that depend on lengths only; hence afb1d is linear in EVERY padding mode (zero, symmetric, reflect, periodic, periodization), '
-          'and whether it raises depends on the lengths only (afb1dOne_linear); the grouped convolution with the code weight '
-          'cat([h0,h1]*C), groups=C applies the same two one-channel operators to every channel for every C, and raises iff a channel does (afb1dT_per_channel). All seven transforms are '
-          'additionally checked on the real code: T(ax+by)=aT(x)+bT(y), T(0)=0, slice-alone = slice-of-batch, other slices irrelevant (exact on integers).' + TIE + BRK,
-          'Lean 4 linearity + per-channel theorems + exact correspondence with N,C>1 + linearity/slice oracle', 'DESIGN.md §4 C07')
+          'Proved for all sizes: correlation (any stride/dilation), transposed convolution, every gather through an index table that depends on the length only (Python slices with any step, '
+          'symm_pad_1d / periodic / reflect index vectors), zero padding, take/drop, concatenation, roll, the wrap-around fold, element-wise sums and the stack+view interleavings are linear list '
+          'operators and linearity is closed under composition and under choices that depend on lengths only; hence EVERY one-dimensional operator of the library is linear for every filter, length '
+          'and pair of scalars, and whether it raises depends on the lengths only: afb1d in every padding mode (afb1dOne_linear), the synthesis bank sfb1d in the pair (lo, hi) in every mode incl. '
+          'the periodization fold + roll (C07D.sfb1dCh_linear), the stationary filter afb1d_atrous (afb1dAtrousOne_linear), the DTCWT filters colfilter (both padding modes), coldfilt and colifilt '
+          '(both highpass flags, both parities of m/2: colfilter1_linear, coldfilt1_linear, colifilt1_linear); the grouped convolution with the code weight cat([h0,h1]*C), groups=C applies the same '
+          'two one-channel operators to every channel for every C, and raises iff a channel does (afb1dT_per_channel, afb1dT_total), and the J-level 1-D transform acts channel by channel. '
+          'The lifting of linearity to images / pyramids (row and column passes, q2c/c2q, level loops) is composition of these and is decided on the real code for all seven transforms: '
+          'T(ax+by)=aT(x)+bT(y), T(0)=0, slice-alone = slice-of-batch, other slices irrelevant (exact on integers).' + TIE + BRK,
+          'Lean 4 linearity theorems for every 1-D operator (calculus of linear list operators) + per-channel theorems + exact correspondence with N,C>1 + linearity/slice oracle', 'DESIGN.md §4 C07')
     claim('C10',
           'Proved for arbitrary band contents, all band lengths and filter lengths: sfb1d in modes zero/symmetric/reflect/periodic (two transposed stride-2 convolutions cropped by L-2) equals '
           'pywt.idwt; periodization synthesis (one fold + roll) equals pywt.idwt whenever L-2 <= 2n (the complement is the known finding); the J-level DWT1DInverse (un-pad rule, None levels) equals '
